@@ -16,7 +16,7 @@ from runner import subseed
 
 LEVEL = "exploration"
 RULE = ("seeded projects (valid ones, single-fault and multi-fault invalid ones so that several independent diagnostics "
-        "exist; profiles core/keys/names/text) and the four checked-in projects. Each is compiled by the real isograph_cli "
+        "exist, and projects that write the same declaration in several files; profiles core/keys/names/text) and the four checked-in projects. Each is compiled by the real isograph_cli "
         "in fresh processes (fresh hash seeds): 3 times over copies whose files were created in different orders and "
         "under different directory names (directory enumeration order), comparing every artifact byte and the printed "
         "diagnostics (normalised only for timing and colour); then 2 layout-permuted copies (declarations shuffled, moved "
@@ -109,6 +109,20 @@ def _variant(spec):
         return rng.choice(ms) if ms else p
     if kind == "multi-fault":
         return isomut.multi_fault(p, rng, k=rng.randint(2, 4)) or p
+    if kind == "duplicates":
+        # the same declaration written in several files (and an undefined client field selected from several places):
+        # diagnostics whose location could be any of several equally guilty places
+        import copy
+        q = copy.deepcopy(p)
+        fields = [d for d in q.decls if d.kind == "field"]
+        for j, d in enumerate(rng.sample(fields, min(len(fields), rng.randint(1, 2)))):
+            for i in range(rng.randint(1, 3)):
+                c = copy.deepcopy(d)
+                c.file = rng.choice(["dup/a.ts", "dup/b.tsx", "a.ts", "zz/last.ts", "0first.ts"])
+                c.export_name = f"{d.name}Dup{j}{i}"
+                q.decls.insert(rng.randint(0, len(q.decls)), c)
+        q.render_files()
+        return q
     return p
 
 
@@ -214,7 +228,7 @@ def run(ctx):
     for proj in cc.checked_in_projects():
         specs.append({"kind": "checked-in", "name": proj["name"], "cli": cli, "root": os.path.join(ctx.work, "c14-ci-" + proj["name"])})
     for prof in ("core", "keys", "names", "text"):
-        for variant in ("valid", "single-fault", "multi-fault"):
+        for variant in ("valid", "single-fault", "multi-fault", "duplicates"):
             for i in range(n):
                 seed = subseed(ctx.seed, "c14", prof, variant, i) % (1 << 48)
                 specs.append({"kind": "generated", "profile": prof, "variant": variant, "seed": seed, "cli": cli,
